@@ -81,3 +81,13 @@ package lexer
 //@ func lexer.lexer.scanNumber
 //@   property C12
 //@   schema accepts 0 xX oO bB * . * eE +- *
+
+// digits of escapes as the lexer validates them: value of a decimal or hexadecimal digit, 16 for anything else (C12)
+//@ func lexer.digitVal returns r
+//@   property C12
+//@   pure
+//@   mode nopanic
+//@   ensures[decimal] ch >= 48 && ch <= 57 ==> r == int(ch) - 48
+//@   ensures[hex-lower] ch >= 97 && ch <= 102 ==> r == int(ch) - 97 + 10
+//@   ensures[hex-upper] ch >= 65 && ch <= 70 ==> r == int(ch) - 65 + 10
+//@   ensures[other] !(ch >= 48 && ch <= 57) && !(ch >= 97 && ch <= 102) && !(ch >= 65 && ch <= 70) ==> r == 16
